@@ -138,7 +138,8 @@ class S3Compatible(Backend, short_name='S3C'):
         encoded_canonical_uri = quote(canonical_uri)
         url = self.url + encoded_canonical_uri
         if query:
-            query_string = urlencode(sorted(query.items()))
+            # Spaces must be encoded as %20 in the canonical query string
+            query_string = urlencode(sorted(query.items()), quote_via=quote)
             url += f'?{query_string}'
         else:
             query_string = ''
